@@ -1868,9 +1868,9 @@ class Memoer(Tymee):
 
         # self.size is min-max gram size computed on zeroth gram
         zbz = (self.size - zoz)  # max zeroth gram body size >=1
-        nbz = (self.size - noz)  # max non-zeroth gram body size >=1
+        nbz = max(1, self.size - noz)  # max non-zeroth gram body size >=1
         ml = len(memo)
-        gc = math.ceil((ml+nbz-zbz)/nbz)
+        gc = max(1, math.ceil((ml+nbz-zbz)/nbz))  # zeroth gram may hold it all
         mms = min(self.MaxMemoSize, (nbz*(self.MaxGramCount-1) + zbz))  # max memo payload
         if ml > mms:
             raise hioing.MemoerError(f"Memo length={ml} exceeds max={mms}")
